@@ -21,6 +21,7 @@ using vh::Rng;
 enum Kind {
   K_ADD = 0, K_ROTATE, K_AUTOMORPHISM, K_NORMALIZE, K_DFT, K_DFT_IDFT, K_SVP_APPLY, K_VMP_APPLY, K_SMALL, K_BIG_NORMALIZE, K_NTT120_DFT_IDFT,
   K_REIM_FFT, K_REIM_IFFT, K_REIM_MUL, K_REIM_ADDMUL, K_FROM64, K_TO64, K_CPLX_FFT, K_Q120_NTT, K_Q120_BBB, K_REIM4_FROM_CPLX,
+  K_MODULE_CHURN, K_NTT120_MODULE_CHURN, K_PRECOMP_CHURN,
   NTABLE,
   K_S_REIM_FFT = NTABLE, K_S_REIM_MUL, K_S_TO64, K_S_CPLX_FFT, K_S_R4_MUL, K_S_FROM_ZNX32, K_S_REIM_IFFT, K_S_CPLX_MUL, K_S_TO_TNX32, K_S_FROM64,
   NKIND
@@ -28,7 +29,7 @@ enum Kind {
 static const char* KN[NKIND] = {"vec_znx_add", "vec_znx_rotate", "vec_znx_automorphism", "vec_znx_normalize_base2k", "vec_znx_dft", "vec_znx_dft+idft", "svp_apply_dft",
                                 "vmp_apply_dft", "znx_small_single_product", "vec_znx_big_normalize_base2k", "ntt120:vec_znx_dft+idft", "reim_fft", "reim_ifft",
                                 "reim_fftvec_mul", "reim_fftvec_addmul", "reim_from_znx64", "reim_to_znx64", "cplx_fft", "q120_ntt_bb_avx2", "q120_vec_mat1col_product_bbb",
-                                "reim4_from_cplx", "reim_fft_simple", "reim_fftvec_mul_simple", "reim_to_znx64_simple", "cplx_fft_simple", "reim4_fftvec_mul_simple",
+                                "reim4_from_cplx", "new/use/delete:private_FFT64_module", "new/use/delete:private_NTT120_module", "new/use/free:private_fft_precomp", "reim_fft_simple", "reim_fftvec_mul_simple", "reim_to_znx64_simple", "cplx_fft_simple", "reim4_fftvec_mul_simple",
                                 "cplx_from_znx32_simple", "reim_ifft_simple", "cplx_fftvec_mul_simple", "cplx_to_tnx32_simple", "reim_from_znx64_simple"};
 
 struct Shared {
@@ -137,6 +138,31 @@ static std::vector<uint8_t> run_call(int kind, uint64_t dseed) {
       grab(o, 32); free(x); free(y); free(o); break;
     }
     case K_REIM4_FROM_CPLX: { uint64_t mm = m < 4 ? 4 : m; double* x = dbls(2 * mm); double* o = (double*)xalloc(2 * mm * 8); reim4_from_cplx(S.r4fc, o, x); grab(o, 2 * mm * 8); free(x); free(o); break; }
+    // object churn: a thread creates, uses and deletes its OWN module / table of the same dimension while other threads use the shared
+    // ones -- constructors and destructors are API functions too, and must not touch state that other objects depend on
+    case K_MODULE_CHURN: {
+      MODULE* pm = new_module_info(n, FFT64);
+      int64_t *a = ints(n, sb), *b = ints(n, sb), *res = (int64_t*)xalloc(n * 8);
+      uint8_t* t = (uint8_t*)xalloc(znx_small_single_product_tmp_bytes(pm));
+      znx_small_single_product(pm, res, a, b, t);
+      delete_module_info(pm);
+      grab(res, n * 8); free(a); free(b); free(res); free(t); break;
+    }
+    case K_NTT120_MODULE_CHURN: {
+      MODULE* pm = new_module_info(n, NTT120);
+      int64_t* a = ints(n, 63); uint8_t* d = (uint8_t*)xalloc(n * 32); uint8_t* g = (uint8_t*)xalloc(n * 16);
+      vec_znx_dft(pm, (VEC_ZNX_DFT*)d, 1, a, 1, n);
+      vec_znx_idft_tmp_a(pm, (VEC_ZNX_BIG*)g, 1, (VEC_ZNX_DFT*)d, 1);
+      delete_module_info(pm);
+      grab(g, n * 16); free(a); free(d); free(g); break;
+    }
+    case K_PRECOMP_CHURN: {
+      REIM_FFT_PRECOMP* t = new_reim_fft_precomp(m, 0);
+      double* x = dbls(2 * m);
+      reim_fft(t, x);
+      free(t);
+      grab(x, 2 * m * 8); free(x); break;
+    }
     case K_S_TO_TNX32: {
       const double dv = std::ldexp(1.0, (int)(dseed % 7) - 2);
       const uint32_t ovh = (dseed >> 8) % 19;
